@@ -113,7 +113,7 @@ pub fn universe(tier: Tier) -> Vec<RVal> {
     }
     let sub: Vec<RVal> = vec![
         RVal::s(""), RVal::s("a"), RVal::s("ab"), RVal::s("b"), RVal::s("a\u{1}"), RVal::s("a\u{1}\u{3}"), RVal::s("a\u{1}\u{4}"), RVal::s("\u{0}"),
-        RVal::u(0), RVal::f(-0.0), RVal::f(5e-324), RVal::f(-5e-324), RVal::f(1e-20), RVal::f(-1e-300), RVal::f(f64::MIN_POSITIVE), RVal::u(1), RVal::f(1.0), RVal::u(1 << 53), RVal::u((1 << 53) + 1), RVal::f(9007199254740992.0),
+        RVal::u(0), RVal::f(-0.0), RVal::f(5e-324), RVal::f(-5e-324), RVal::f(1e-20), RVal::f(-1e-300), RVal::f(f64::MIN_POSITIVE), RVal::u(1), RVal::f(1.0), RVal::f(1.000001), RVal::u(100), RVal::f(100.001), RVal::u(1 << 53), RVal::u((1 << 53) + 1), RVal::f(9007199254740992.0),
         RVal::Null, RVal::Bool(true), RVal::Bool(false), RVal::arr(vec![]), RVal::obj(vec![]),
     ];
     for x in &sub {
